@@ -224,6 +224,11 @@ SetFieldOp ==
         \/ \E p \in 0..3 : emit([where |-> p], [k \in 1..Len(recs) |-> ins(recs[k], what[k], p)])
   /\ cur' = Sink /\ aux' = NoLayout /\ phase' = "done"
 
+\* C09: is_none / bytemask of every option encoding: 1 exactly at the missing positions
+IsNoneOp ==
+  /\ OpReady("isnone") /\ (IsOptionL(cur) \/ cur.c = "Indexed")
+  /\ Case("isnone", [none |-> 0], Ok(VList([k \in 1..Len(V.xs) |-> VInt(IF IsNone(V.xs[k]) THEN 1 ELSE 0)])))
+
 \* C17: type, form and the depth / field / regularity queries describe the value truthfully
 RECURSIVE KeysOfT(_)
 KeysOfT(U) == CASE U.k = "rec" -> U.ks
@@ -269,7 +274,7 @@ UfuncOp ==
              \/ emit("neg", "cur", <<lay(cur)>>)
   /\ cur' = Sink /\ aux' = NoLayout /\ phase' = "done"
 
-Operate == TypeFormOp \/ BuffersOp \/ UfuncOp \/ SetFieldOp \/ SortOp \/ ConcatOp \/ SameValueOp \/ ReduceOp \/ Validity \/ ToListOp \/ SliceOp \/ NumOp \/ LocalIndexOp \/ FlattenOp \/ PadOp \/ CombOp
+Operate == IsNoneOp \/ TypeFormOp \/ BuffersOp \/ UfuncOp \/ SetFieldOp \/ SortOp \/ ConcatOp \/ SameValueOp \/ ReduceOp \/ Validity \/ ToListOp \/ SliceOp \/ NumOp \/ LocalIndexOp \/ FlattenOp \/ PadOp \/ CombOp
 
 Next == Build \/ Operate
 Spec == Init /\ [][Next]_vars
